@@ -45,7 +45,7 @@ Close(s) == /\ closed = "" /\ unsynced[Other(s)] = 0
 
 (* ---- proxy ---- *)
 Relay(s) == /\ dlv[s] < sent[s]
-            /\ \E k \in 1..(sent[s] - dlv[s]) : (k \in Sizes \/ k = sent[s] - dlv[s]) /\ dlv' = [dlv EXCEPT ![s] = @ + k]
+            /\ \E k \in (Sizes \cup {sent[s] - dlv[s]}) : k <= sent[s] - dlv[s] /\ dlv' = [dlv EXCEPT ![s] = @ + k]
             /\ UNCHANGED <<sent, unsynced, closed, eof, hist>>
 CloseOther == /\ closed # "" /\ ~eof
               /\ "CloseNoFlush" \in Defects \/ dlv[closed] = sent[closed]
